@@ -87,6 +87,7 @@ def reduce_sel(t, alt_index, nary=None):
 
 
 KWNAMES = ["wide", "narrow", "mid"]      # keyword names of chooses(k=..): written order is not alphabetical order
+KWNAME_SETS = [["wide", "narrow", "mid"], ["name", "op", "level"], ["self", "args", "k"]]     # any identifier may name an option
 
 
 class World:
@@ -121,7 +122,7 @@ class World:
             return fn(*alts)
         if t["form"] == "dict":
             return fn({i: x for i, x in enumerate(alts)})
-        return fn(**{KWNAMES[i]: x for i, x in enumerate(alts)})
+        return fn(**{KWNAMES[i]: x for i, x in enumerate(alts)})        # (KWNAMES: rebound by the check per name set)
 
     def eager(self, t, env, opmap=None):
         """the same Python expression applied eagerly to the already-parsed values"""
@@ -167,6 +168,20 @@ def instr_name(world, num_args, op, name):
 
 
 def observe(world, expr, env):
+    """-> (prog, steps, result).  The RESULT comes from the public entry point (compile_expr_into_callable applied to a
+    packet); the compiled program and the operands of every instruction are observed on a best-effort basis through the
+    library's internals (compile_expr / exec_compiled_expr): if those are laid out differently (a refactoring), prog and
+    steps are None and only the result is checked."""
+    from bisturi import deferred
+    result = deferred.compile_expr_into_callable(expr)(pkt_for(env))
+    try:
+        prog, steps, result2 = _observe_internals(world, expr, env)
+    except Exception:
+        return None, None, result
+    return prog, steps, result
+
+
+def _observe_internals(world, expr, env):
     """compile with the real compile_expr, execute with the real exec_compiled_expr, log every instruction"""
     from bisturi import deferred
     comp = deferred.compile_expr(expr)
